@@ -13,15 +13,9 @@ From Coq Require Import List ZArith NArith Bool.
 Import ListNotations.
 Require Import TL.Model.Serdes TL.Model.SerdesToy TL.Proofs.SerdesLemmas.
 
-(* The full statement, for a given version of the code (fixd): every head that is not NoOp / Bytes,
-   every encodable s, every carrier. It is FALSE for both versions (C14_refuted_literal) and for the
-   pinned one also because of unhashable carriers (C14_refuted_bytearray). *)
-Definition no_bytes_target (h : head) : bool :=
-  match h with HNoOp | HBytes => false | _ => true end.
-Definition C14_full (fixd : bool) : Prop :=
-  forall rt, RuntimeLaws rt -> forall rest whole sup h k s,
-    no_bytes_target h = true -> encodable s = true ->
-    entry_gen rt rest whole sup fixd h (carrier rt k s) = entry_gen rt rest whole sup fixd h (PStr s).
+(* The unguarded statement is Model/Serdes.v: C14_full fixd.  It is false for the pinned and for the repaired code. *)
+Theorem C14_full_refuted : ~ C14_full true /\ ~ C14_full false.
+Proof. exact full_refuted. Qed.
 
 (* decode: all bytes-like carriers of the same bytes (valid UTF-8 or not) give the same text or
    raise the same error; and every carrier of s decodes to s. *)
@@ -101,6 +95,7 @@ Theorem C14_refuted_literal :
     RuntimeLaws rt /\ encodable s = true /\ forallb no_bin_value vals = true /\
     entry rt rest whole sup (HLiteral vals) (PStr s) = Ok (PStr s) /\
     entry rt rest whole sup (HLiteral vals) (carrier rt CBytes s) = Raise EValue /\
+    entry_pinned rt rest whole sup (HLiteral vals) (PStr s) = Ok (PStr s) /\
     entry_pinned rt rest whole sup (HLiteral vals) (carrier rt CBytes s) = Raise EValue.
 Proof. exact refuted_literal. Qed.
 
@@ -122,6 +117,7 @@ Proof. exact toy_json_text. Qed.
 Example C14_plain_text_hyp : json_loads_str toy_rt t_abc = Raise EValue /\ literal_eval toy_rt t_abc = Raise ESyntax.
 Proof. exact toy_plain. Qed.
 
+Print Assumptions C14_full_refuted.
 Print Assumptions C14_decode_carriers.
 Print Assumptions C14_load_carriers.
 Print Assumptions C14_carriers.
